@@ -455,6 +455,8 @@ theorem makeTable_rowwise (ext : Ext) (sep : Char) (naRep : Str) (t : TableVal) 
       obtain ⟨i, _, rfl⟩ := List.mem_map.1 hr
       exact List.take_of_length_le (by simp)
     rw [hdata]
+    have hlen : ¬ (strRow (t.columns.map (·.unit))).length < t.columns.length := by simp [strRow]
+    simp only [hlen, if_false]
   exact makeTable_of_layout ext sep naRep t hwf f hf (by rw [hlay, h])
 
 /-! ## 5. stage C, transposed tables -/
@@ -695,7 +697,7 @@ theorem makeTable_transposed (ext : Ext) (sep : Char) (naRep : Str) (t : TableVa
   have hall : (strRow (t.columns.map (·.unit))).all Cell.isStr = true := by simp [strRow, Cell.isStr]
   simp only [hall, if_true, hd0, transposedRows_lines ext sep naRep t hwf h hc,
     units_strip ext sep naRep t hwf, header_drop_transposed t h, hwf.destsBack, h]
-  simp
+  simp [strRow]
 
 /-! ## 6. tables without columns, and the block / blank-tail decomposition of the written rows -/
 
